@@ -39,19 +39,23 @@ func (vfErrPw) PasswordAuthenticate(string, []byte) (bool, error) {
 func (vfErrPw) UpdateStorage(simplestorage.SimpleStore) error { return nil }
 
 type vfShapes struct {
-	t          *testing.T
-	state      *RuntimeState
-	userPub    interface{}
-	leafFP     string
-	kmCA       *x509.Certificate
-	roleCA     *x509.Certificate
-	foreignCA  *x509.Certificate
-	foreignKey *rsa.PrivateKey
-	certs      map[string]*x509.Certificate
-	realPw     interface{}
-	signer     crypto.Signer
-	base       int64
+	t           *testing.T
+	state       *RuntimeState
+	userPub     interface{}
+	leafFP      string
+	kmCA        *x509.Certificate
+	roleCA      *x509.Certificate
+	foreignCA   *x509.Certificate
+	foreignKey  *rsa.PrivateKey
+	certs       map[string]*x509.Certificate
+	realPw      interface{}
+	signer      crypto.Signer
+	base        int64
+	lastSoonExp int64
 }
+
+// lifetime (wall-clock seconds, rounded up) of a cookie whose exp token is `soon`
+const vfSoonSecs = 2
 
 func vfNewShapes(t *testing.T, state *RuntimeState) *vfShapes {
 	s := &vfShapes{t: t, state: state, certs: map[string]*x509.Certificate{}, signer: state.Signer}
@@ -116,7 +120,9 @@ func vfMintJWT(key crypto.Signer, claims interface{}) (string, error) {
 }
 
 // apply decorates req according to the seven shape tokens
-//   method origin host tls cookie basic limiter
+//
+//	method origin host tls cookie basic limiter
+//
 // and configures the state (deny list, limiter, password backend). Returns false on a bad token.
 func (s *vfShapes) build(f []string, path string) (*http.Request, bool) {
 	if len(f) != 7 {
@@ -270,6 +276,11 @@ func (s *vfShapes) decorate(f []string, req *http.Request) (*http.Request, bool)
 		}
 		if p[5] == "past" {
 			c.Expiration = now - 50
+		} else if p[5] == "soon" {
+			// a session about to end: valid now, over within vfSoonSecs seconds of the wall clock (for
+			// histories that present the same cookie before and after its expiry)
+			c.Expiration = time.Now().Unix() + vfSoonSecs
+			s.lastSoonExp = c.Expiration
 		} else {
 			c.Expiration = now + 36000
 		}
